@@ -1456,6 +1456,9 @@ def register(R):
         as failure cleanups before anything can touch the file."""
         out = {}
         regs = cleanup_regs(tr)
+        if fileobj is None:                        # a path on which no output file object was obtained at all
+            out['output_file_object_obtained_from_the_output_manager'] = (B(False), ['C06', 'C04'])
+            return out
         if mgr_cls == 'DownloadFilenameOutputManager':
             fh = c.new.obj(fileobj)
             final = c.old.f(cargs, 'fileobj')
